@@ -152,7 +152,7 @@ def eval_ilv(case):
             want = [{'name': names[ci], 'role': roles[ci], 'closed': state == 'closed', 'selected': False,
                      'messages': len([e for e in SCRIPTS[case['scripts'][ci]]['events'] if e[0] != 'reject']), 'state': state}
                     for ci in first_seen]
-            got = [outparse.connection_line(l) for l in listing]
+            got = [cl for cl in map(outparse.connection_line, listing) if cl]      # rows; a header or footer of the table is presentation
             if got != want:
                 V.append(Violation('listing.' + tag, case, {'expected': want, 'observed': got}))
         got_closed = sorted((outparse.classify(l)[1]['conn'], outparse.classify(l)[1]['role'])
@@ -193,7 +193,7 @@ def eval_ilv(case):
                 V.append(Violation('isolation.projection', case, {
                     'connection': names[ci], 'first_difference_at': k,
                     'solo': solo[k:k + 1], 'interleaved': proj[ci][k:k + 1]}))
-            want = [dict(outparse.connection_line(l) or {}, name=names[ci]) for l in lo2]
+            want = [dict(cl, name=names[ci]) for cl in map(outparse.connection_line, lo2) if cl]
             got = [outparse.connection_line(l) for l in listing_open if (outparse.connection_line(l) or {}).get('name') == names[ci]]
             if want != got:
                 V.append(Violation('isolation.listing', case, {'solo': want, 'interleaved': got}))
